@@ -3,7 +3,7 @@
 EXTENDS Analysis
 
 VARIABLES cfg
-Init == cfg \in [e : Entries, mask : MaskPatterns, order : Orders]
+Init == cfg \in [e : Entries, mask : MaskPatterns, order : Orders, spectrum : Spectra]
 Next == FALSE /\ UNCHANGED cfg
 Spec == Init /\ [][Next]_cfg
 
